@@ -11,7 +11,7 @@ for b in selftest/benign/*.diff; do
     ./check $p quick >/dev/null 2>&1; c=$?
     res="$res $p:exit$c"; [ $c -ne 0 ] && bad=1
   done
-  git -C /repo checkout -- .
+  git -C /repo checkout -- . ; git -C /repo clean -fdq -- core macro src tests examples 2>/dev/null
   echo "$(basename $b .diff) |$res"
 done
 rm -f replays/*.json
